@@ -67,6 +67,8 @@ class C02(Prop):
                    'whether an equal-priority handler runs after stop() is not asserted')
     budget = {'quick': (700, 4), 'thorough': (12000, 16)}
 
+    shrink_lists = {'waves': 1, 'handlers': 1, 'kids': 0}
+
     def setup(self):
         driver.quiet_process()
 
